@@ -7,7 +7,7 @@ from mc.alphabet import GROUPS, op_signature
 from mc.explore import bfs, transition
 from mc.snapshot import diff_kinds
 
-SEEDS = ["empty", "wired", "multi", "nested", "chain"]
+SEEDS = ["empty", "wired", "multi", "nested", "chain", "unsorted"]
 
 ALL = tuple(GROUPS)
 COLL = ("io", "init", "values")
@@ -17,6 +17,7 @@ PLANS = {
     # (seeds, plan per depth, caps)
     "quick": [
         (SEEDS, [ALL, ALL], {}),
+        (["empty", "wired"], [("io_lite", "init_lite")] * 4, {"vcap": 3}),
     ],
     "thorough": [
         (SEEDS, [ALL, ALL], {}),
